@@ -34,6 +34,10 @@ CHECKS = {
    technique="stateless depth-first exploration of all thread interleavings (iterative preemption bounding, timer expiry as environment deviation) of the real TransactionManager / Transaction / TransactionCancelTimer compiled from instrumented sources under a cooperative scheduler",
    text="After a sequential set-up (register, record old intents, arm the rollback timer) every multiset of up to two (quick, plus selected triples) or three (thorough) of Confirm(t1), Cancel(t1), Confirm(other), Cancel(other), Register(t2) runs concurrently with the timer-expiry environment event; all interleavings within the preemption/deviation bound are executed on the real code at the granularity of its lock, channel, select and timer operations. Every execution must end without panic (double close) or deadlock, with at most one rollback, no rollback after a successful Confirm, exactly one after a successful Cancel or an unanswered expiry, wrong-id calls failing without effect, and the slot released iff the transaction is resolved.",
    note="Sequential consistency; the rollback itself is a recording stub with two scheduling points (harness A). Bounds completed are printed in the evidence."),
+ "C19": dict(level="model_checking", engine="E4-sched", design="DESIGN.md §3 C19",
+   technique="stateless depth-first exploration of all thread interleavings (preemption bound) and environment deviations (client cancellation, stream failure, ticker ticks at every point) of the real Subscribe / GetData / WatchDeviations handlers compiled from instrumented sources under a cooperative scheduler; deadlock, panic, leftover goroutines and waiting at rest are detected per execution",
+   text="Datastore.Subscribe with 1..3 (thorough 4) subscriptions over 0..2 stored leaves, Server.GetData -> Datastore.Get in the four encodings with 1..3 paths, and Server.WatchDeviations run on a synchronous in-memory cache with a controllable stream whose Send is a scheduling point. The environment may cancel the client, make the stream fail (the next and all later Sends return an error) and fire every ticker, at every scheduling point within the deviation bound; a stalled consumer is a Send that blocks until the client is gone. In every execution the handler must return, every goroutine it started must have finished, nothing may panic (double close, send on closed channel) or deadlock, and after a stream failure or exhausted data the handler must not wait for the client's cancellation.",
+   note="gRPC's transport and flow control are represented by the Send seam only; the cache is synchronous (reads return pre-filled closed channels); a failed stream's context is cancelled by the environment only when nothing else can move."),
  "C07": dict(level="fault_enumeration", engine="E2-faults", design="DESIGN.md §3 C07",
    technique="exhaustive single-fault enumeration over every call the Datastore makes to target.Target, cache.Client and schema.Client during the last transaction of 10 scenarios (error and restart-at-call), each followed by a retry and compared with the fault-free run",
    text="For each scenario the last transaction runs fault-free on the real Datastore/cache to learn its collaborator call sequence; then every call k is made to fail once (error; Read returns nothing) and, separately, the process is cut off at call k and the Datastore rebuilt over the same cache. A device fault must yield an error, unchanged intent store and running mirror and an unlocked datastore; after every fault the repeated request must succeed and reach the fault-free device configuration and intent store. The fault space (calls x kinds) is enumerated completely.",
@@ -105,7 +109,7 @@ m = {
  "engines": [
    {"name": "E2-faults", "path": "harness/h/check_c07.go", "serves_properties": ["C07", "C18"], "kind_free_text": "fault enumeration: every assignment of failure behaviours to the collaborator calls of one operation, each executed on the real code"},
    {"name": "E3-inputs", "path": "harness/h/check_c15.go", "serves_properties": ["C11", "C12", "C15", "C20"], "kind_free_text": "bounded-exhaustive enumeration of inputs / store contents over explicit finite domains, each case executed on the real code and judged by a reference model"},
-   {"name": "E4-sched", "path": "rt/rt.go", "serves_properties": ["C06", "C16"], "kind_free_text": "controlled cooperative scheduler (rt/) + typed-AST source instrumenter (instr/) + stateless DFS with iterative preemption/deviation bounding (rt/explore.go); the implementation's own sync, channel, select, go and time operations are the scheduling points"},
+   {"name": "E4-sched", "path": "rt/rt.go", "serves_properties": sorted(k for k, v in CHECKS.items() if v["engine"] == "E4-sched"), "kind_free_text": "controlled cooperative scheduler (rt/) + typed-AST source instrumenter (instr/) + stateless DFS with iterative preemption/deviation bounding (rt/explore.go); the implementation's own sync, channel, select, go and time operations are the scheduling points"},
    {"name": E1, "path": "harness/h/explore.go", "serves_properties": sorted(k for k, v in CHECKS.items() if v["engine"] == E1),
     "kind_free_text": "level-synchronous explicit-state search; successor = replay of the shortest history on a fresh real Datastore/cache instance + one operation; canonical state key without timestamps; per-property oracle plug-ins"},
  ],
